@@ -111,6 +111,7 @@ func migrationSteps(p *an.Prog) (map[int64]*ssa.Function, int64, bool) {
 
 func runC13(p *an.Prog, r *an.Run, tier string) {
 	checkOneTxn(p, r, "one-txn")
+	checkSingleStoreWiring(p, r)
 
 	// ---- propagate
 	fns := badgerPkgFuncs(p)
@@ -452,7 +453,7 @@ func runC13(p *an.Prog, r *an.Run, tier string) {
 			}
 		}
 		// writes/deletes keyed by iterator items: the loop must be confined to the Seek prefix
-		for _, fnx := range an.WithAnon(st) {
+		for _, fnx := range regionFuncs(p, st) {
 			var seeks, valids []ssa.CallInstruction
 			for _, c := range an.Calls(fnx, false) {
 				f := an.CallObj(c)
@@ -509,4 +510,67 @@ func runC13(p *an.Prog, r *an.Run, tier string) {
 func sameConstBytes(p *an.Prog, a, b ssa.Value) bool {
 	sa, sb := p.Derives(0, a).ConstStrings(), p.Derives(0, b).ConstStrings()
 	return len(sa) == 1 && len(sb) == 1 && sa[0] == sb[0]
+}
+
+// checkSingleStoreWiring: the pool binary keeps all its state in the one store the operator selected. Every store
+// instance created in runPool is the one handed to pool.New; a second instance created on the side (an in-memory nonce
+// store for the payment service, say) silently takes part of the state out of the persistent store.
+func checkSingleStoreWiring(p *an.Prog, r *an.Run) {
+	runPool := p.Func("", "runPool")
+	si := p.Iface("pool/store", "Store")
+	if runPool == nil || si == nil {
+		r.Undec("wiring", "main.runPool", token.NoPos, "main.runPool / store.Store not found")
+		return
+	}
+	r.Analysed(an.FuncName(runPool))
+	isCtor := func(c ssa.CallInstruction) bool {
+		sig := c.Common().Signature()
+		if sig == nil || sig.Results().Len() == 0 {
+			return false
+		}
+		t := sig.Results().At(0).Type()
+		if _, isIface := t.Underlying().(*types.Interface); isIface {
+			// a constructor declared to return an interface: decide by its name's package (the two driver packages)
+			if f := an.CallObj(c); f != nil && f.Pkg() != nil && strings.Contains(f.Pkg().Path(), "/pool/store/") {
+				return types.Implements(t, si)
+			}
+			return false
+		}
+		return types.Implements(t, si) || types.Implements(types.NewPointer(t), si)
+	}
+	var poolNew ssa.CallInstruction
+	var ctors []ssa.CallInstruction
+	for _, fn := range regionFuncs(p, runPool) {
+		for _, c := range an.Calls(fn, false) {
+			if f := an.CallObj(c); f != nil && f.Name() == "New" && f.Pkg() != nil && strings.HasSuffix(f.Pkg().Path(), "/pool") {
+				poolNew = c
+			}
+			if isCtor(c) {
+				ctors = append(ctors, c)
+			}
+		}
+	}
+	var bad []string
+	if poolNew == nil || len(poolNew.Common().Args) == 0 {
+		bad = append(bad, "runPool does not construct the pool with pool.New(store, ...)")
+	} else {
+		d := p.DerivesIn(runPool, 1, poolNew.Common().Args[0])
+		for _, c := range ctors {
+			v, _ := c.(ssa.Value)
+			if v == nil || !(d.HasValue(v) || derivesFromCallValue(d, v)) {
+				bad = append(bad, "runPool creates a second store at "+p.Pos(c.Pos())+" ("+callName(c)+") that is not the one the pool runs on: what is kept there (nonces, balances, links) does not survive a restart of a persistent pool")
+			}
+		}
+	}
+	r.Floor("store-constructors-in-runPool", len(ctors), 2)
+	r.Check(len(bad) == 0, "wiring", "main.runPool", runPool.Pos(), "one store instance, the selected one, backs every service", "%s", strings.Join(dedup(bad), "; "))
+}
+
+func derivesFromCallValue(d *an.Deriv, v ssa.Value) bool {
+	for _, n := range d.Nodes {
+		if ex, ok := n.(*ssa.Extract); ok && ex.Tuple == v {
+			return true
+		}
+	}
+	return false
 }
